@@ -84,6 +84,7 @@ type mScene struct {
 	realVFund     *client.VirtualChannelFundingProposalMsg    // M's real funding proposal to the hub (intercepted)
 	realVSet      *client.VirtualChannelSettlementProposalMsg // M's real settlement proposal to the hub (intercepted)
 	bobSent       bool                                        // B's own funding / settlement proposal is on its way to the hub
+	ownReq        wire.Msg                                    // "~own": the request of the victim itself, as it left the victim
 	threadErrs    []string
 	seq           byte
 	views         map[channel.ID]*mChanView // the victim's channels at the start of the adversarial phase
@@ -678,6 +679,12 @@ func (p mProbeRes) ok() bool { return p.Res == "ok" }
 // the victim's own probe then uses a version no crafted message referred to.
 func (sc *mScene) probe() (out []mProbeRes) {
 	w := sc.w
+	if sc.led != nil {
+		// did the victim make a version current that the real M never saw?
+		if a, b := sc.lastEnabled(sc.V.Idx, sc.led.ID()), sc.lastEnabled(sc.M.Idx, sc.led.ID()); a != nil && b != nil && a.Version != b.Version {
+			sc.ledMoved = true
+		}
+	}
 	w.Bus.Drop = nil
 	sc.V.OnProposal, sc.V.OnUpdate = nil, nil
 	one := func(what string, ch *client.Channel) {
